@@ -345,9 +345,43 @@ pub fn gen_phys_graph(t: &mut Tape, max_e: usize, max_l: usize, min_omega: f64, 
     }
     // occasionally relabel vertices with arbitrary u8 labels
     if t.chance(0.2) {
-        let off = t.below(200) as u8;
-        let mul = *t.pick(&[1u8, 3, 7, 11]);
-        let f = |v: u8| off.wrapping_add(v.wrapping_mul(mul));
+        let map: Vec<u8> = match t.below(3) {
+            0 => {
+                let off = t.below(200) as u8;
+                let mul = *t.pick(&[1u8, 3, 7, 11]);
+                (0..nv as u8).map(|v| off.wrapping_add(v.wrapping_mul(mul))).collect()
+            }
+            1 => {
+                // distinct labels that agree in their low bits (v, v+64, v+128, ...: a subgraph kept from a larger graph)
+                let stride = *t.pick(&[16usize, 32, 64, 128]);
+                let lows: Vec<usize> = (0..2).map(|_| t.below(stride)).collect();
+                let mut used = vec![false; 256];
+                let mut out = vec![];
+                for _ in 0..nv {
+                    let mut l = (lows[t.below(2)] + stride * t.below(256 / stride)) % 256;
+                    while used[l] {
+                        l = (l + 1) % 256;
+                    }
+                    used[l] = true;
+                    out.push(l as u8);
+                }
+                out
+            }
+            _ => {
+                let mut used = vec![false; 256];
+                let mut out = vec![];
+                for _ in 0..nv {
+                    let mut l = t.below(256);
+                    while used[l] {
+                        l = (l + 1) % 256;
+                    }
+                    used[l] = true;
+                    out.push(l as u8);
+                }
+                out
+            }
+        };
+        let f = |v: u8| map[v as usize];
         g.edges = g.edges.iter().map(|&(a, b)| (f(a), f(b))).collect();
         g.externals = g.externals.iter().map(|&v| f(v)).collect();
     }
